@@ -14,8 +14,13 @@ if _src not in sys.path:
 import numpy as np  # noqa: E402
 
 
-def sedpack():
+def sedpack(rust: bool = False):
+    """Import sedpack from /repo's working tree; with rust=True the native extension is first
+    rebuilt from /repo/rust's current sources and installed as sedpack._sedpack_rs."""
     import sedpack  # noqa
+    if rust:
+        from . import rustbuild
+        rustbuild.install()
     import sedpack.io  # noqa
     assert Path(sedpack.__file__).resolve().is_relative_to(REPO.resolve()), sedpack.__file__
     return sedpack
